@@ -48,6 +48,7 @@ Visible(e) ==
     \/ e.e = "newrun" /\ NextRun
     \/ e.e = "mutate" /\ Mutate
     \/ e.e = "clear" /\ ClearCache
+    \/ e.e = "drop" /\ DropEntries({j \in Keys : (e.k \div (2 ^ (j - 1))) % 2 = 1})   \* k = bit mask of the dropped keys
     \/ e.e = "fin" /\ EndAll
 
 TInit == Init /\ tid \in 1..Len(Traces) /\ l = 1
